@@ -4,11 +4,19 @@
   Linear / Cubic ≡ SciPy's interpolators is a differential test only (external algorithm): no theorem.
 -/
 import VerdeModel.Lemmas.PReal
+import VerdeModel.Gen.Kernels
 import VerdeModel.Model.LinAlg
 import Mathlib.Tactic.Linarith
 import Mathlib.Tactic.Ring
 namespace Verde.C03
 open Verde PReal
+
+/-! ### Bridge: the definitions regenerated from /repo's source text on every run ARE the model's definitions.
+    (`Gen/Kernels.lean` is rewritten by harness/py2lean.py before each build; if the source changes, these are what breaks.) -/
+theorem gen_greens_jit_eq_model {α : Type} [RealLike α] (e n m : α) : Gen.greensJit e n m = greens e n m := rfl
+theorem gen_greens_numpy_eq_model {α : Type} [RealLike α] (e n m : α) : Gen.greensNumpy e n m = greens e n m := rfl
+theorem gen_greens2d_eq_model {α : Type} [RealLike α] (e n m ν : α) : Gen.greens2d e n m ν = greens2d e n m ν := rfl
+theorem gen_checker_eq_model {α : Type} [RealLike α] (A we wn e n : α) : Gen.checker A we wn e n = checker A we wn e n := rfl
 
 /-- Documented biharmonic kernel: `g(r) = r²(ln r − 1)`, `g(0) = 0`. -/
 noncomputable def gSpec (r : ℝ) : ℝ := if r = 0 then 0 else r ^ 2 * (Real.log r - 1)
